@@ -42,6 +42,9 @@ pos("parse-skips-consumption-check",CV,"""	if d, b, err = z.scan(r, base); err !
 pos("scan-exponent-error-dropped",CV,"	exp, ebase, err = scanExponent(r, true, base == 0)\n	if err != nil {\n		return\n	}","	exp, ebase, _ = scanExponent(r, true, base == 0)","ERRDROP","(*Decimal).scan",quick=True)
 pos("decscan-unread-error-dropped","dec_conv.go","				err = r.UnreadByte() // ch does not belong to number anymore","				r.UnreadByte() // ch does not belong to number anymore","ERRDROP","dec.scan")
 pos("scan-octal-fraction-4-bits",CV,"			exp2 += d * 3 // octal digits are 3 bits each","			exp2 += d * 4 // octal digits are 3 bits each","SCANSHAPE","radix-8",quick=True)
+pos("scan-hex-fraction-into-decimal-exponent",CV,"			exp2 += d * 4 // hexadecimal digits are 4 bits each","			exp10 += d * 4 // hexadecimal digits are 4 bits each","SCANSHAPE","radix-16")
+pos("scan-binary-fraction-subtracted",CV,"		case 2:\n			exp2 += d\n","		case 2:\n			exp2 -= d\n","SCANSHAPE","radix-2")
+neg("scan-octal-fraction-shift-add",CV,"			exp2 += d * 3 // octal digits are 3 bits each","			exp2 = d<<1 + d // octal digits are 3 bits each",["SCANSHAPE"],note="exp2 is 0 before the switch")
 pos("scan-hex-fraction-into-exp10",CV,"			exp2 += d * 4 // hexadecimal digits are 4 bits each","			exp10 += d * 4 // hexadecimal digits are 4 bits each","SCANSHAPE","radix-16")
 pos("scan-exponent-separators-always",CV,"	exp, ebase, err = scanExponent(r, true, base == 0)","	exp, ebase, err = scanExponent(r, true, true)","SCANSHAPE","sepOk")
 pos("decscan-separators-any-base","dec_conv.go","		} else if ch == '_' && base == 0 {","		} else if ch == '_' && base >= 0 {","SCANSHAPE","sepGate")
